@@ -286,6 +286,16 @@ func (s *Sim) enter(method, detail string) error {
 	s.counts[method]++
 	if m, ok := s.Faults[method][s.counts[method]]; ok {
 		s.Log = append(s.Log, LogEntry{N: len(s.Log), Version: s.Version, Method: method, Detail: detail, Err: m})
+		// the fault value selects the wording: providers report transient trouble in many ways, some of which contain
+		// the words "not found" without meaning that the object does not exist
+		switch m {
+		case "header-not-found":
+			return errors.New("header not found")
+		case "block-not-found":
+			return errors.New("block not found")
+		case "missing-trie-node":
+			return errors.New("missing trie node 5f4d (path ) state 0x5f4d is not available, not found")
+		}
 		return errors.New("injected RPC failure")
 	}
 	s.Log = append(s.Log, LogEntry{N: len(s.Log), Version: s.Version, Method: method, Detail: detail})
@@ -321,6 +331,18 @@ func (a *ethAPI) GetBlockByNumber(ctx context.Context, tag string, full bool) (m
 	switch tag {
 	case "latest", "finalized", "safe":
 		b = s.blockAt(s.Head)
+		if tag == "latest" && s.FinalizedMode {
+			// where finality is read from the "finalized" tag, "latest" is the tip of what has been mined
+			tip := s.Head
+			for n := range s.canon {
+				if n > tip {
+					tip = n
+				}
+			}
+			b = s.blockAt(tip)
+			s.Log[len(s.Log)-1].Detail = fmt.Sprintf("%s -> %d (not a finalized head)", tag, b.Number)
+			return s.headerJSON(b), nil // not recorded as a served head: it is no evidence of finality
+		}
 	default:
 		n, err := hexutil.DecodeUint64(tag)
 		if err != nil || n > s.Head {
